@@ -163,6 +163,8 @@ def run(ctx):
             items.append(('select', b, tuple(SELECT_TOGGLES[10:]), 'Int'))
     for b in BACKENDS: items.append(('tricky', b, ('like', 'str', 'limit'), 'Int'))
     for b in BACKENDS:
+        for vt in ('String', 'Bytes', 'Char'): items.append(('select', b, ('from', 'arity', 'vrows'), vt))      # VALUES-list cells of the text-like types
+    for b in BACKENDS:
         for vt in VTYPES[1:]:
             items.append(('update', b, ('set2', 'where'), vt))
             if not quick: items.append(('insert', b, ('rows', 'cols', 'conflict'), vt)); items.append(('select', b, ('valitem', 'w1', 'order', 'limit'), vt))
